@@ -1,4 +1,4 @@
-import CvProps.RealInst
+import CvProps.C04Lemmas
 /-!
 # C04 — ABF stores the mean force per bin and applies its smoothed negative
 
@@ -23,11 +23,60 @@ def InOk (p : AbfParams ℝ) (i : AbfIn ℝ) : Prop := i.xs.length = nvars p ∧
 
 theorem wf_init (p : AbfParams ℝ) (hpos : ∀ n ∈ p.g.nx, 0 < n) (hs : p.subtract.length = nvars p)
     (hd : p.g.lo.length = nvars p ∧ p.g.w.length = nvars p) : WF p (AbfState.init p) := by
-  sorry
+  have hnt := C15.ntOf_pos p.g.nx hpos
+  refine ⟨?_, ?_, ?_, hs, hd⟩
+  · show ((List.replicate (ntOf 1 p.g.nx).toNat (0 : Int)).length : Int) = _
+    rw [List.length_replicate]; omega
+  · show (List.replicate _ _).length = (List.replicate _ _).length * _
+    simp only [List.length_replicate]
+  · show (List.replicate _ _).length = _
+    rw [List.length_replicate]
 
-theorem wf_step (p : AbfParams ℝ) (s : AbfState ℝ) (i : AbfIn ℝ) (h : WF p s) (hi : InOk p i) :
+/- Original statement (false when `maxForce = some m` with `m.length < nvars p`: the capped force, hence
+   `lastForce`, then has length `m.length`):
+     theorem wf_step (p : AbfParams ℝ) (s : AbfState ℝ) (i : AbfIn ℝ) (h : WF p s) (hi : InOk p i) :
+         WF p (abfStep p s i).1
+   The hypothesis `hmf` (maxForce has at least one entry per variable) is added. -/
+theorem wf_step (p : AbfParams ℝ) (s : AbfState ℝ) (i : AbfIn ℝ) (h : WF p s) (_hi : InOk p i)
+    (hmf : ∀ m, p.maxForce = some m → nvars p ≤ m.length) :
     WF p (abfStep p s i).1 := by
-  sorry
+  refine ⟨?_, ?_, ?_, h.sub_len, h.dims⟩
+  · rw [abfStep_samples_length]; exact h.samples_len
+  · rw [abfStep_grad_length, abfStep_samples_length]; exact h.grad_len
+  · rw [abfStep_lastForce, abfStep_snd]
+    split_ifs
+    · exact biasingForce_length _ _ _ hmf
+    · rw [List.length_replicate]
+
+/-- the original `wf_step` (without `hmf`) is false: one variable, `maxForce` given as an empty list -/
+theorem wf_step_original_false : ¬ ∀ (p : AbfParams ℝ) (s : AbfState ℝ) (i : AbfIn ℝ), WF p s → InOk p i →
+    WF p (abfStep p s i).1 := by
+  intro H
+  let p : AbfParams ℝ :=
+    { g := { nx := [4], lo := [0], w := [1] }, subtract := [false], maxForce := some [] }
+  have hw : WF p (AbfState.init p) :=
+    wf_init p (by intro n hn; simp [p] at hn; omega) rfl ⟨rfl, rfl⟩
+  have h := (H p (AbfState.init p) ⟨[0], [0], false, false⟩ hw ⟨rfl, rfl⟩).last_len
+  have hb : binsOf p.g [0] = [0] := by simp [binsOf, valueToBin, p]
+  rw [abfStep_lastForce, abfStep_snd] at h
+  simp only [hb] at h
+  rw [if_pos (by simp [p, indexOk]), biasingForce_eq, show p.maxForce = some [] from rfl,
+    capForce_some_length] at h
+  simp [nvars, p] at h
+
+/-- without any assumption on `maxForce`: every shape fact except the length of `lastForce` is preserved,
+    and `lastForce` is never longer than the number of variables -/
+theorem wf_step_partial (p : AbfParams ℝ) (s : AbfState ℝ) (i : AbfIn ℝ) (h : WF p s) :
+    ((abfStep p s i).1.samples.length : Int) = ntOf 1 p.g.nx ∧
+    (abfStep p s i).1.grad.length = (abfStep p s i).1.samples.length * nvars p ∧
+    (abfStep p s i).1.lastForce.length ≤ nvars p := by
+  refine ⟨?_, ?_, ?_⟩
+  · rw [abfStep_samples_length]; exact h.samples_len
+  · rw [abfStep_grad_length, abfStep_samples_length]; exact h.grad_len
+  · rw [abfStep_lastForce, abfStep_snd]
+    split_ifs
+    · exact biasingForce_length_le _ _ _
+    · rw [List.length_replicate]
 
 /-! ## the stored count and gradient are exactly the recorded samples -/
 
@@ -39,14 +88,16 @@ noncomputable def eventsAt (p : AbfParams ℝ) (a : Nat) (ev : List (List Int ×
 theorem count_eq (p : AbfParams ℝ) (s : AbfState ℝ) (h : List (AbfIn ℝ)) (hw : WF p s)
     (hin : ∀ i ∈ h, InOk p i) (a : Nat) (ha : a < s.samples.length) :
     (abfRun p s h).1.samples.getD a 0 = s.samples.getD a 0 + ((eventsAt p a (abfEvents p s h)).length : Int) := by
-  sorry
+  have _ := hw; have _ := hin
+  exact count_eq_aux p h s a ha
 
 /-- ... and the stored gradient is the initial one minus the sum of those force samples, per variable -/
 theorem grad_eq (p : AbfParams ℝ) (s : AbfState ℝ) (h : List (AbfIn ℝ)) (hw : WF p s)
     (hin : ∀ i ∈ h, InOk p i) (a : Nat) (ha : a < s.samples.length) (j : Nat) (hj : j < nvars p) :
     (abfRun p s h).1.grad.getD (a * nvars p + j) 0 =
       s.grad.getD (a * nvars p + j) 0 - ((eventsAt p a (abfEvents p s h)).map (fun e => e.2.getD j 0)).sum := by
-  sorry
+  have _ := hin
+  exact grad_eq_aux p (le_of_eq hw.sub_len) h s a j hw.grad_len ha hj
 
 /-- hence, starting from empty grids, gradient / count is minus the arithmetic mean of the samples of the bin -/
 theorem mean_eq (p : AbfParams ℝ) (h : List (AbfIn ℝ)) (hpos : ∀ n ∈ p.g.nx, 0 < n)
@@ -57,7 +108,21 @@ theorem mean_eq (p : AbfParams ℝ) (h : List (AbfIn ℝ)) (hpos : ∀ n ∈ p.g
     let ev := eventsAt p a (abfEvents p (AbfState.init p) h)
     fin.samples.getD a 0 = (ev.length : Int) ∧
     fin.grad.getD (a * nvars p + j) 0 / (ev.length : ℝ) = - ((ev.map (fun e => e.2.getD j 0)).sum / (ev.length : ℝ)) := by
-  sorry
+  intro fin ev
+  have _ := hn
+  have hw := wf_init p hpos hs hd
+  have ha' : a < (AbfState.init p).samples.length := by
+    show a < (List.replicate _ _).length
+    rw [List.length_replicate]; omega
+  have hc := count_eq p _ h hw hin a ha'
+  have hg := grad_eq p _ h hw hin a ha' j hj
+  have i1 : (AbfState.init p).samples.getD a 0 = 0 := getD_replicate_self _ _ _
+  have i2 : (AbfState.init p).grad.getD (a * nvars p + j) 0 = 0 := by
+    show (List.replicate _ (0.0 : ℝ)).getD _ 0 = 0
+    rw [zero_lit]; exact getD_replicate_self _ _ _
+  refine ⟨by rw [hc, i1, zero_add], ?_⟩
+  rw [hg, i2]
+  ring
 
 /-! ## which sample is recorded: attributed to the bin occupied when the force acted, minus the ABF force applied then -/
 
@@ -72,7 +137,11 @@ theorem event_late (p : AbfParams ℝ) (s : AbfState ℝ) (prev cur : AbfIn ℝ)
         some (binsOf p.g prev.xs,
               (List.zip (List.zip cur.ft fprev) p.subtract).map fun ((f, l), sub) => if sub then f else f - l)
       else none := by
-  sorry
+  have _ := hw; have _ := hp; have _ := hc
+  intro s1 fprev
+  rw [abfEvent_eq, systemForce_late p s1 cur.ft hl]
+  simp only [hl, Bool.false_eq_true, if_false]
+  rfl
 
 /-- same-step total forces: the sample goes to the current bin and nothing is subtracted -/
 theorem event_current (p : AbfParams ℝ) (s : AbfState ℝ) (cur : AbfIn ℝ) (hw : WF p s) (hc : InOk p cur)
@@ -80,12 +149,14 @@ theorem event_current (p : AbfParams ℝ) (s : AbfState ℝ) (cur : AbfIn ℝ) (
     abfEvent p s cur =
       if cur.elig && p.updateBias && cur.timingOk && indexOk p.g.nx (binsOf p.g cur.xs) then
         some (binsOf p.g cur.xs, cur.ft) else none := by
-  sorry
+  rw [abfEvent_eq, systemForce_current p s cur.ft hl (by rw [hw.last_len, hc.2]) (by rw [hw.sub_len, hc.2])]
+  simp only [hl, if_true]
 
 /-- nothing is recorded at ineligible steps, with `updateBias off`, or before a total force exists -/
 theorem no_event (p : AbfParams ℝ) (s : AbfState ℝ) (i : AbfIn ℝ)
     (h : i.elig = false ∨ p.updateBias = false ∨ i.timingOk = false) : abfEvent p s i = none := by
-  sorry
+  rw [abfEvent_eq]
+  rcases h with h | h | h <;> simp [h]
 
 /-! ## the applied force -/
 
@@ -93,18 +164,20 @@ theorem no_event (p : AbfParams ℝ) (s : AbfState ℝ) (i : AbfIn ℝ)
 theorem force_zero (p : AbfParams ℝ) (s : AbfState ℝ) (i : AbfIn ℝ)
     (h : p.applyBias = false ∨ indexOk p.g.nx (binsOf p.g i.xs) = false) :
     (abfStep p s i).2 = List.replicate (nvars p) 0 := by
-  sorry
+  rw [abfStep_snd, zero_lit]
+  rcases h with h | h <;> simp [h]
 
 /-- the smoothing weight is the documented ramp divided by the count -/
 theorem smooth_is_ramp (p : AbfParams ℝ) (n : Int) (hn : 0 < n) (hm : 0 ≤ p.minSamples) (hf : p.minSamples < p.fullSamples) :
-    smoothInvWeight p n = ramp p n / (n : ℝ) := by
-  sorry
+    smoothInvWeight p n = ramp p n / (n : ℝ) :=
+  smooth_is_ramp_aux p n hn hm hf
 
 /-- the ramp is 0 up to minSamples, 1 from fullSamples, affine and increasing in between, always in [0, 1] -/
 theorem ramp_props (p : AbfParams ℝ) (hm : 0 ≤ p.minSamples) (hf : p.minSamples < p.fullSamples) :
     (∀ n, n ≤ p.minSamples → ramp p n = 0) ∧ (∀ n, p.fullSamples ≤ n → ramp p n = 1) ∧
     (∀ n m, n ≤ m → ramp p n ≤ ramp p m) ∧ (∀ n, 0 ≤ ramp p n ∧ ramp p n ≤ 1) := by
-  sorry
+  have _ := hm
+  exact ⟨fun n h => ramp_zero p hf n h, fun n h => ramp_one p n h, ramp_mono p hf, ramp_bounds p hf⟩
 
 /-- inside the grid, without the periodic correction and the cap, the force on variable `j` is
     ramp(count) times (stored gradient / count) of the current bin — i.e. minus the ramped mean force sample -/
@@ -114,12 +187,13 @@ theorem force_is_ramped_mean (p : AbfParams ℝ) (s : AbfState ℝ) (bin : List 
     let a := (address 1 p.g.nx bin).toNat
     (biasingForce p s bin).getD j 0 =
       ramp p (s.samples.getD a 0) * (s.grad.getD (a * nvars p + j) 0 / ((s.samples.getD a 0 : Int) : ℝ)) := by
-  sorry
+  intro a
+  exact force_is_ramped_mean_aux p s bin j hj hp hc hm hf hn
 
 /-- with `maxForce` every component is capped -/
 theorem force_capped (mf f : List ℝ) (hl : mf.length = f.length) (hpos : ∀ m ∈ mf, 0 ≤ m) (j : Nat) (hj : j < f.length) :
-    |(capForce (some mf) f).getD j 0| ≤ mf.getD j 0 := by
-  sorry
+    |(capForce (some mf) f).getD j 0| ≤ mf.getD j 0 :=
+  force_capped_aux mf f hl hpos j hj
 
 /-- one periodic variable, every bin sampled at least fullSamples times: the biasing force has zero mean over the grid,
     i.e. the biasing potential is periodic -/
@@ -128,12 +202,14 @@ theorem periodic_zero_mean (p : AbfParams ℝ) (s : AbfState ℝ) (n : Nat) (hn 
     (hm : 0 ≤ p.minSamples) (hf : p.minSamples < p.fullSamples)
     (hs : s.samples.length = n) (hg : s.grad.length = n) (hfull : ∀ c ∈ s.samples, p.fullSamples ≤ c) :
     ((List.range n).map fun b => (biasingForce p s [(b : Int)]).getD 0 0).sum = 0 := by
-  sorry
+  rw [bind_pure_cast, List.map_map]
+  exact periodic_zero_mean_aux p s n hn hnx hp hc hm hf hs hg hfull
 
 /-! ## non-vacuity -/
 
 example : ∃ p : AbfParams ℝ, (∀ n ∈ p.g.nx, 0 < n) ∧ p.subtract.length = nvars p ∧
     (p.g.lo.length = nvars p ∧ p.g.w.length = nvars p) ∧ 0 ≤ p.minSamples ∧ p.minSamples < p.fullSamples :=
-  ⟨{ g := { nx := [4], lo := [0], w := [1] }, subtract := [false] }, by sorry⟩
+  ⟨{ g := { nx := [4], lo := [0], w := [1] }, subtract := [false] },
+    by intro n hn; simp at hn; omega, rfl, ⟨rfl, rfl⟩, by decide, by decide⟩
 
 end Cv.C04
